@@ -15,6 +15,17 @@ CHECKS = {
             'Trusted: the self-built VC generator (clang JSON AST -> SMT), clang front end, z3/cvc5; mju_error does not return; '
             '__atomic_fetch_add is a linearizable read-modify-write; default build flags (no ASAN red zones); LP64.',
             'contracts + self-built weakest-precondition/symbolic VC generation over the clang AST, z3 LIA (exact mod 2^64) + cvc5'),
+    'C20': ('DESIGN.md section 4 / C20',
+            'Deductive, per call site: (1) a path-sensitive typestate VC over the real AST of every function that calls '
+            'mj_arenaAllocByte proves that no path dereferences, offsets or passes on a result that may be NULL and that every '
+            'NULL path reports (mj_warning / error) before returning - loops by fixpoint, so for all iteration counts; (2) the '
+            'allocation wrappers (pushPairArena, mj_addContact, arenaAllocEfc, arenaAllocIsland, effAlloc, mj_clearEfc, mj_warning) '
+            'are verified against contracts stating the failure shape: warning counted, arena pointer restored, counters cleared, '
+            'every arena pointer NULL after mj_clearEfc; the callee is used through its proved C19 contract only.',
+            'Trusted: the VC generator and typestate analysis, clang, z3/cvc5; mju_error does not return; typed regions of the arena '
+            'do not overlap (C19); warning counters below INT_MAX; fewer than INT_MAX contacts. Not decided: physical consistency '
+            'of the truncated constraint set; writes into arena blocks performed by other functions.',
+            'contracts + typestate/ghost-state VCs over the clang AST; symbolic VC generation + z3 LIA'),
 }
 
 NA = {
